@@ -1695,27 +1695,32 @@ def bestof_reduction(ctx, path, n, rule, need, ob, key, sty, k5v):
     if red["kind"] == "min_by_key":
         return bestof_min_by_key(ctx, path, n, rule, need, ob, key, k5v, red, table, ret, ex)
     if any(c is not TRUE for c in red["conds"]):
-        ob("loop-shape", short(path), False, "the reduction runs over a sequence of unknown length", where)
-        return None
+        return bestof_peel(ctx, path, n, rule, need, ob, key, sty, k5v, "the reduction runs over a sequence of unknown length")
     init = red["init"]
     if ret[0] != "agg" or len(ret[2]) != 2:
         ob("result", short(path), False, "hand_rank_value_and_hand does not return a (value, hand) pair", where)
         return None
     # accumulator shape: one u16 (best value) and one Five (best hand), in some tuple order
     if init[0] != "agg" or init[1][0] != "tuple":
-        ob("loop-shape", short(path), False, "the reduction's accumulator is not a (value, hand) tuple", where)
-        return None
+        return bestof_peel(ctx, path, n, rule, need, ob, key, sty, k5v, "the reduction's accumulator is not a (value, hand) tuple")
     ix_v = next((i for i, f in enumerate(init[2]) if ty_of(f) == "u16"), None)
     ix_h = next((i for i, f in enumerate(init[2]) if f[0] == "agg" and f[1][:2] == ("adt", FIVE)), None)
     if ix_v is None or ix_h is None:
-        ob("loop-shape", short(path), False, "the reduction's accumulator has no (u16, Five) pair", where)
-        return None
+        return bestof_peel(ctx, path, n, rule, need, ob, key, sty, k5v, "the reduction's accumulator has no (u16, Five) pair")
     ob("initial-best", short(path), init[2][ix_v][0] == "c" and init[2][ix_v][1] == 0, "the running best value does not start at 0 (no hand yet)", where)
     # items: each must carry the opaque ranking of a candidate made of the receiver's slots named by its table row
     ok_rows = len(items) == len(table)
     ok_rank = True
     base_env = {"s%d" % i: 100 + i for i in range(n)}
     bare = bool(items) and items[0][0] == "agg" and items[0][1][:2] == ("adt", FIVE)
+    if items and not bare:
+        # items that are neither candidates nor (value, candidate) pairs (table rows, indexes, ...): the selection and
+        # the ranking happen inside the step; decided from the whole function's summary instead
+        def is_pair(it):
+            fs = it[2] if it[0] == "agg" else []
+            return any(f[0] == "agg" and f[1][:2] == ("adt", FIVE) for f in fs) and any(ty_of(f) == "u16" for f in leaves_of(it, []))
+        if not all(is_pair(it) for it in items):
+            return bestof_peel(ctx, path, n, rule, need, ob, key, sty, k5v, "a reduction whose items are neither candidates nor (value, candidate) pairs")
     for k_, it in enumerate(items):
         if bare:
             cand = it
@@ -1747,8 +1752,7 @@ def bestof_reduction(ctx, path, n, rule, need, ob, key, sty, k5v):
     ex2 = Exec(pdb, contracts={FIP: fip_contract}, opaque={k5v})
     nxt, _ = call_closure(ex2, {"key": key, "self_ty": None, "depth": 0, "fid": 0}, st3, red["closure"], [acc_s, item_s])
     if nxt[0] != "agg" or len(nxt[2]) != len(init[2]):
-        ob("loop-shape", short(path), False, "the step does not return an accumulator of the same shape", where)
-        return None
+        return bestof_peel(ctx, path, n, rule, need, ob, key, sty, k5v, "the step does not return an accumulator of the same shape")
     best_a = acc_s[2][ix_v]
     old_h = [x[1] for x in arr_of(acc_s[2][ix_h])]
     # which leaf of the item is the candidate value / hand
